@@ -85,7 +85,48 @@ type Disagreement struct {
 	Answer string
 }
 
+// dumpDiff points at the first rows on which two canonical dumps differ.
+func dumpDiff(impl, model string) string {
+	ti, tm := strings.Split(impl, "|"), strings.Split(model, "|")
+	for k := 0; k < len(ti) && k < len(tm); k++ {
+		if ti[k] == tm[k] {
+			continue
+		}
+		ri, rm := strings.Split(ti[k], ";"), strings.Split(tm[k], ";")
+		mi := map[string]string{}
+		for _, r := range rm {
+			mi[strings.SplitN(r, ",", 2)[0]] = r
+		}
+		seen := map[string]bool{}
+		for _, r := range ri {
+			key := strings.SplitN(r, ",", 2)[0]
+			seen[key] = true
+			if o, ok := mi[key]; !ok {
+				return "row only in implementation: " + r
+			} else if o != r {
+				fi, fm := strings.Split(r, ","), strings.Split(o, ",")
+				var diffs []string
+				for x := 0; x < len(fi) && x < len(fm); x++ {
+					if fi[x] != fm[x] {
+						diffs = append(diffs, "impl "+fi[x]+" / model "+fm[x])
+					}
+				}
+				return "row " + key + " (table " + ti[k][:1] + ") differs: " + strings.Join(diffs, "; ")
+			}
+		}
+		for _, r := range rm {
+			if !seen[strings.SplitN(r, ",", 2)[0]] {
+				return "row only in model: " + r
+			}
+		}
+	}
+	return "dumps differ"
+}
+
 func (d *Disagreement) String() string {
+	if strings.HasPrefix(d.Line, "dump ") && strings.HasPrefix(d.Answer, "MISMATCH kind=dump model=") {
+		return fmt.Sprintf("line %d: tables differ after the operation: %s", d.LineNo, dumpDiff(d.Line[5:], strings.TrimPrefix(d.Answer, "MISMATCH kind=dump model=")))
+	}
 	l := d.Line
 	if len(l) > 600 {
 		l = l[:600] + "…"
